@@ -177,6 +177,44 @@ m("C-12", "C05", "", ("x/model/keeper/data_management.go", "func (k Keeper) NewM
   ("x/model/keeper/data_management.go", "\tkey := fmt.Sprintf(\"%s-%s-%s\", metadata.Owner, metadata.Alias, metadata.GroupId)\n\n\t_, found_model := k.GetModel(ctx, key)", "\tkey := modelKey(metadata)\n\n\t_, found_model := k.GetModel(ctx, key)"),
   ("x/model/keeper/data_management.go", "\t\tkey := fmt.Sprintf(\"%s-%s-%s\", metadata.Owner, metadata.Alias, metadata.GroupId)\n\t\tk.RemoveModel(ctx, key)\n\t\treturn", "\t\tk.RemoveModel(ctx, modelKey(metadata))\n\t\treturn"))
 
+
+m("C-15", "C04", "", ("x/market/keeper/pool_management.go", "\t\terr := k.bank.SendCoinsFromModuleToModule(ctx, types.ModuleName, ordertypes.ModuleName, sdk.Coins{refundCoin})\n", "\t\terr := k.moveToOrderEscrow(ctx, refundCoin)\n"),
+  ("x/market/keeper/pool_management.go", "func (k Keeper) Claim(", "func (k Keeper) moveToOrderEscrow(ctx sdk.Context, coin sdk.Coin) error {\n\treturn k.bank.SendCoinsFromModuleToModule(ctx, types.ModuleName, ordertypes.ModuleName, sdk.Coins{coin})\n}\n\nfunc (k Keeper) Claim("))
+m("C-15b", "C06", "", ("x/market/keeper/pool_management.go", "\t\terr := k.bank.SendCoinsFromModuleToModule(ctx, types.ModuleName, ordertypes.ModuleName, sdk.Coins{refundCoin})\n", "\t\terr := k.moveToOrderEscrow(ctx, refundCoin)\n"),
+  ("x/market/keeper/pool_management.go", "func (k Keeper) Claim(", "func (k Keeper) moveToOrderEscrow(ctx sdk.Context, coin sdk.Coin) error {\n\treturn k.bank.SendCoinsFromModuleToModule(ctx, types.ModuleName, ordertypes.ModuleName, sdk.Coins{coin})\n}\n\nfunc (k Keeper) Claim("))
+m("M-flowhelper", "C04", "E7-flow", ("x/market/keeper/pool_management.go", "\t\terr := k.bank.SendCoinsFromModuleToModule(ctx, types.ModuleName, ordertypes.ModuleName, sdk.Coins{refundCoin})\n", "\t\terr := k.moveToOrderEscrow(ctx, order.Amount)\n"),
+  ("x/market/keeper/pool_management.go", "func (k Keeper) Claim(", "func (k Keeper) moveToOrderEscrow(ctx sdk.Context, coin sdk.Coin) error {\n\treturn k.bank.SendCoinsFromModuleToModule(ctx, types.ModuleName, ordertypes.ModuleName, sdk.Coins{coin})\n}\n\nfunc (k Keeper) Claim("))
+
+
+m("C-16", "C04", "", ("x/sao/keeper/expire_management.go", "\t\tshard.CreatedAt = uint64(ctx.BlockHeight())\n", "\t\tstartPeriod(ctx, &shard)\n"),
+  ("x/sao/keeper/expire_management.go", "func (k Keeper) HandleExpiredShard(", "func startPeriod(ctx sdk.Context, shard *ordertypes.Shard) {\n\tshard.CreatedAt = uint64(ctx.BlockHeight())\n}\n\nfunc (k Keeper) HandleExpiredShard("),
+  ("x/sao/keeper/expire_management.go", "import (\n", "import (\n\tordertypes \"github.com/SaoNetwork/sao/x/order/types\"\n"))
+
+m("C-16b", "C11", "", ("x/sao/keeper/expire_management.go", "\t\tshard.CreatedAt = uint64(ctx.BlockHeight())\n", "\t\tstartPeriod(ctx, &shard)\n"),
+  ("x/sao/keeper/expire_management.go", "func (k Keeper) HandleExpiredShard(", "func startPeriod(ctx sdk.Context, shard *ordertypes.Shard) {\n\tshard.CreatedAt = uint64(ctx.BlockHeight())\n}\n\nfunc (k Keeper) HandleExpiredShard("),
+  ("x/sao/keeper/expire_management.go", "import (\n", "import (\n\tordertypes \"github.com/SaoNetwork/sao/x/order/types\"\n"))
+m("C-16c", "C19", "", ("x/sao/keeper/expire_management.go", "\t\tshard.CreatedAt = uint64(ctx.BlockHeight())\n", "\t\tstartPeriod(ctx, &shard)\n"),
+  ("x/sao/keeper/expire_management.go", "func (k Keeper) HandleExpiredShard(", "func startPeriod(ctx sdk.Context, shard *ordertypes.Shard) {\n\tshard.CreatedAt = uint64(ctx.BlockHeight())\n}\n\nfunc (k Keeper) HandleExpiredShard("),
+  ("x/sao/keeper/expire_management.go", "import (\n", "import (\n\tordertypes \"github.com/SaoNetwork/sao/x/order/types\"\n"))
+m("C-16d", "C14", "", ("x/sao/keeper/expire_management.go", "\t\tshard.CreatedAt = uint64(ctx.BlockHeight())\n", "\t\tstartPeriod(ctx, &shard)\n"),
+  ("x/sao/keeper/expire_management.go", "func (k Keeper) HandleExpiredShard(", "func startPeriod(ctx sdk.Context, shard *ordertypes.Shard) {\n\tshard.CreatedAt = uint64(ctx.BlockHeight())\n}\n\nfunc (k Keeper) HandleExpiredShard("),
+  ("x/sao/keeper/expire_management.go", "import (\n", "import (\n\tordertypes \"github.com/SaoNetwork/sao/x/order/types\"\n"))
+m("C-16e", "C07", "", ("x/sao/keeper/expire_management.go", "\t\tshard.CreatedAt = uint64(ctx.BlockHeight())\n", "\t\tstartPeriod(ctx, &shard)\n"),
+  ("x/sao/keeper/expire_management.go", "func (k Keeper) HandleExpiredShard(", "func startPeriod(ctx sdk.Context, shard *ordertypes.Shard) {\n\tshard.CreatedAt = uint64(ctx.BlockHeight())\n}\n\nfunc (k Keeper) HandleExpiredShard("),
+  ("x/sao/keeper/expire_management.go", "import (\n", "import (\n\tordertypes \"github.com/SaoNetwork/sao/x/order/types\"\n"))
+
+
+# ---------------------------------------------------------------- round-4 rules: hand-made variants and controls
+m("M-addr", "C02", "L2-addr", ("x/did/keeper/msg_server_binding.go", "if caip10.Network == DEFAULT_NETWORK && caip10.Chain == ctx.ChainID() {\n\t\t\t_, found := k.GetPaymentAddress(ctx, proof.Did)", "if caip10.Chain == ctx.ChainID() {\n\t\t\t_, found := k.GetPaymentAddress(ctx, proof.Did)"))
+m("M-pricedur", "C04", "T-price-dur", ("x/sao/keeper/msg_server_renew.go", "\t\t\tDuration:  proposal.Duration,", "\t\t\tDuration:  proposal.Duration + uint64(proposal.Timeout),"))
+m("C-17", "C05", "", ("x/model/keeper/data_management.go", "\torder, _ := k.order.GetOrder(ctx, orderId)\n\n\tif k.order.RefundOrder", "\torder, foundOrder := k.order.GetOrder(ctx, orderId)\n\tif !foundOrder {\n\t\treturn status.Errorf(codes.NotFound, \"order %d not found\", orderId)\n\t}\n\n\tif k.order.RefundOrder"))
+m("M-canceltotal", "C05", "T-cancel", ("x/model/keeper/data_management.go", "\torder, _ := k.order.GetOrder(ctx, orderId)\n\n\tif k.order.RefundOrder", "\torder, _ := k.order.GetOrder(ctx, orderId)\n\tif order.Status == ordertypes.OrderCompleted {\n\t\treturn status.Errorf(codes.Aborted, \"order %d already completed\", orderId)\n\t}\n\n\tif k.order.RefundOrder"))
+m("M-replicadec", "C06", "T-replica-dec", ("x/sao/keeper/timeout_management.go", "order.Replica -= int32(timeoutCount)", "order.Replica -= int32(len(order.Shards) - len(completedShards))"))
+m("M-bookedpath", "C07", "T-booked", ("x/node/keeper/shard_pledge_management.go", "\t} else {\n\t\terr = k.bank.SendCoinsFromAccountToModule(ctx, sdk.MustAccAddressFromBech32(shard.Sp), types.ModuleName, coins)\n\t}", "\t} else if !coins.IsZero() {\n\t\terr = k.bank.SendCoinsFromAccountToModule(ctx, sdk.MustAccAddressFromBech32(shard.Sp), types.ModuleName, coins)\n\t}"))
+m("M-settleremove", "C14", "T-settle-then-remove", ("x/sao/keeper/msg_server_terminate.go", "\t\terr = k.model.TerminateOrder(ctx, order)\n\t\tif err != nil {\n\t\t\treturn nil, err\n\t\t}\n", "\t\terr = k.model.TerminateOrder(ctx, order)\n\t\tif err != nil {\n\t\t\treturn nil, err\n\t\t}\n\t\tfor _, shardId := range order.Shards {\n\t\t\tk.order.RemoveShard(ctx, shardId)\n\t\t}\n"))
+m("M-rescan", "C20", "G-rescan", ("x/node/keeper/hooks.go", "\tdelegations := hook.k.staking.GetValidatorDelegations(ctx, valAddr)\n", "\tdelegations := hook.k.staking.GetValidatorDelegations(ctx, valAddr)\n\tif len(delegations) > 100 {\n\t\treturn\n\t}\n"))
+m("M-keyparams", "C19", "T-keyparams", ("x/node/types/fault.go", "\tproviderBytes := []byte(provider)\n", ""), ("x/node/types/fault.go", "\tkey = append(key, providerBytes...)\n", ""))
+
 # patch-file mutants / controls: (id, property, expected rule or "" for silent, patch path)
 P = [
  ("C-5", "C19", "", "/verif/tools/controls/C-5-faithful-helper-reportfaults.diff"),
@@ -221,6 +259,26 @@ P = [
  ("S-C19-a2", "C19", "G-fish", "/verif/seeded/C19-a2/patch.diff"),
  ("S-C20-a2", "C20", "G-demote", "/verif/seeded/C20-a2/patch.diff"),
  ("C-6", "C18", "", "/verif/tools/controls/C-6-iterate-callback-export.diff"),
+ ("S-C01-a4", "C01", "D1", "/verif/seeded/C01-a4/patch.diff"),
+ ("S-C02-a4", "C02", "L2-addr", "/verif/seeded/C02-a4/patch.diff"),
+ ("S-C03-a4", "C03", "D3", "/verif/seeded/C03-a4/patch.diff"),
+ ("S-C04-a4", "C04", "T-price-dur", "/verif/seeded/C04-a4/patch.diff"),
+ ("S-C05-a4", "C05", "T-cancel", "/verif/seeded/C05-a4/patch.diff"),
+ ("S-C06-a4", "C06", "T-replica-dec", "/verif/seeded/C06-a4/patch.diff"),
+ ("S-C07-a4", "C07", "T-booked", "/verif/seeded/C07-a4/patch.diff"),
+ ("S-C08-a4", "C08", "T-couple", "/verif/seeded/C08-a4/patch.diff"),
+ ("S-C09-a4", "C09", "G-updmeta", "/verif/seeded/C09-a4/patch.diff"),
+ ("S-C10-a4", "C10", "G-renew", "/verif/seeded/C10-a4/patch.diff"),
+ ("S-C11-a4", "C11", "T-lost-update", "/verif/seeded/C11-a4/patch.diff"),
+ ("S-C12-a4", "C12", "CAP-sched-delete", "/verif/seeded/C12-a4/patch.diff"),
+ ("S-C13-a4", "C13", "T-sched-shard", "/verif/seeded/C13-a4/patch.diff"),
+ ("S-C14-a4", "C14", "T-settle-then-remove", "/verif/seeded/C14-a4/patch.diff"),
+ ("S-C15-a4", "C15", "G-distinct", "/verif/seeded/C15-a4/patch.diff"),
+ ("S-C16-a4", "C16", "T-persist", "/verif/seeded/C16-a4/patch.diff"),
+ ("S-C17-a4", "C17", "T-anchored", "/verif/seeded/C17-a4/patch.diff"),
+ ("S-C18-a4", "C18", "E6-all", "/verif/seeded/C18-a4/patch.diff"),
+ ("S-C19-a4", "C19", "T-keyparams", "/verif/seeded/C19-a4/patch.diff"),
+ ("S-C20-a4", "C20", "G-rescan", "/verif/seeded/C20-a4/patch.diff"),
  ("S-C01-a3", "C01", "D1-dep", "/verif/seeded/C01-a3/patch.diff"),
  ("S-C02-a3", "C02", "L2-nilarg", "/verif/seeded/C02-a3/patch.diff"),
  ("S-C03-a3", "C03", "D3-startup", "/verif/seeded/C03-a3/patch.diff"),
@@ -361,7 +419,9 @@ def main():
         vm = "/tmp/vmut" + str(os.getpid())
         os.makedirs(vm, exist_ok=True)
         shutil.copy("/verif/known_findings.json", vm + "/known_findings.json")
-        out = sh(f"/verif/bin/saocheck -p {prop} -repo {REPO} -verif {vm}")
+        # controls (behaviour-preserving edits) must leave EVERY property's check silent, not only the named one
+        parg = "all" if rule == "" else prop
+        out = sh(f"/verif/bin/saocheck -p {parg} -repo {REPO} -verif {vm}")
         fired = [l for l in out.stdout.splitlines() if l.startswith("violation:")]
         und = [l for l in out.stdout.splitlines() if l.startswith("UNDECIDED")]
         if rule == "":
